@@ -80,7 +80,7 @@ Notation inv := (inv gmres_amb lu_o chol_o).
 Notation base := (base lu_o chol_o).
 Notation to_op := (to_op tinv_o iter_o).
 Notation good := (good tinv_o iter_o).
-Notation base_ok := (base_ok lu_o chol_o).
+Notation base_ok := (base_ok lu_o chol_o iter_o).
 Notation tinv_ok := (tinv_ok tinv_o).
 
 Definition goodl (ms : list op) (rs : list iop) := Forall2 (fun m r => good r m) ms rs.
@@ -186,19 +186,19 @@ Fixpoint ok (al : alg) (e : op) (a : atree) {struct e} : Prop :=
   | _ => base_ok al e a
   end.
 
-Definition Pgood (e : op) := forall al a r, wf e = true -> is_sq e = true -> ok al e a -> inv al e a = IOk r -> direct r = true -> good r e.
+Definition Pgood (e : op) := forall al a r, wf e = true -> is_sq e = true -> ok al e a -> inv al e a = IOk r -> good r e.
 Lemma zipapp_cons {A} (f : atree -> A) fs ks : zipapp (f :: fs) ks = f (hd adef ks) :: zipapp fs (tl ks).
 Proof. destruct ks; reflexivity. Qed.
 Lemma list_good al (ms : list op) : Forall Pgood ms -> forall ks rs, forallb wf ms = true -> forallb is_sq ms = true ->
   Forall (fun P : Prop => P) (zipapp (map (fun m k => ok al m k) ms) ks) ->
-  seqres (zipapp (map (fun m k => inv al m k) ms) ks) = inr rs -> forallb direct rs = true -> goodl ms rs.
-Proof. induction 1 as [|m ms Pm HF IH]; intros ks rs W Sq OK H D.
+  seqres (zipapp (map (fun m k => inv al m k) ms) ks) = inr rs -> goodl ms rs.
+Proof. induction 1 as [|m ms Pm HF IH]; intros ks rs W Sq OK H.
   - cbn in H. inversion H; subst. constructor.
   - cbn [map] in OK, H. rewrite zipapp_cons in OK. rewrite zipapp_cons in H. cbn [seqres] in H. inversion OK as [|? ? O1 O2]; subst.
     cbn [forallb] in W, Sq. apply andb_prop in W as [W1 W]. apply andb_prop in Sq as [S1 Sq].
     destruct (inv al m (hd adef ks)) as [r|k] eqn:E; [|discriminate].
     destruct (seqres (zipapp (map (fun m k => inv al m k) ms) (tl ks))) as [k|rs'] eqn:E2; [discriminate|]. inversion H; subst rs.
-    cbn [forallb] in D. apply andb_prop in D as [D1 D]. constructor; [apply (Pm al (hd adef ks)); auto|]. apply (IH (tl ks)); auto. Qed.
+    constructor; [apply (Pm al (hd adef ks)); auto|]. apply (IH (tl ks)); auto. Qed.
 Lemma lift_ok (f : list iop -> iop) x r : lift f x = IOk r -> exists rs, x = inr rs /\ r = f rs.
 Proof. destruct x; cbn [lift]; intros H; inversion H. eexists; split; reflexivity. Qed.
 Lemma forallb_rev {A} (f : A -> bool) l : forallb f (rev l) = forallb f l.
@@ -211,47 +211,41 @@ Proof. induction l as [|x l IH]; cbn; [reflexivity|rewrite IH; reflexivity]. Qed
 Lemma direct_bdiag (rs : list iop) (mus : list nat) : length mus = length rs -> forallb (fun mc : iop * nat => direct (fst mc)) (combine rs mus) = forallb direct rs.
 Proof. revert mus. induction rs as [|r rs IH]; intros [|mu mus] H; cbn in *; try reflexivity; try lia. rewrite IH by lia. reflexivity. Qed.
 
-(* C06: on every direct (non-iterative) dispatch path the returned operator is a well-formed operator of the same shape whose matrix
-   is a two-sided inverse of the input's matrix *)
+(* C06: on every dispatch path the returned operator is a well-formed operator of the same shape whose matrix is a two-sided
+   inverse of the input's matrix (iterative paths: provided the solver is exact on the operators it is applied to) *)
 Theorem inv_den : tinv_ok -> forall e, Pgood e.
 Proof. intros TO. apply op_ind2; unfold Pgood.
-  - (* Dense *) intros A al a r W Sq OK H D. cbn [inv ok] in *. destruct (atri a) as [lo|].
+  - (* Dense *) intros A al a r W Sq OK H. cbn [inv ok] in *. destruct (atri a) as [lo|].
     + apply amb_ok in H. inversion H; subst r. destruct OK as (E & T & N). apply good_Tri; auto.
     + eapply base_good; eauto.
-  - (* Diag *) intros n d al a r W Sq OK H D. cbn [inv ok] in *. apply amb_ok in H. inversion H; subst r. apply good_Diag; auto.
-  - intros n al a r W Sq OK H D. cbn [inv] in H. apply amb_ok in H. inversion H; subst r. apply good_Ident.
-  - intros c n al a r W Sq OK H D. cbn [inv ok] in *. apply amb_ok in H. inversion H; subst r. apply good_Scal; auto.
-  - (* Sum *) intros ms _ al a r W Sq OK H D. eapply base_good; eauto.
-  - (* Prod *) intros ms HF al a r W Sq OK H D. cbn [inv ok] in *. destruct (forallb is_sq ms) eqn:SQ; [|eapply base_good; eauto].
-    apply lift_ok in H as (rs & E & ->). cbn [direct] in D. rewrite forallb_rev in D.
+  - (* Diag *) intros n d al a r W Sq OK H. cbn [inv ok] in *. apply amb_ok in H. inversion H; subst r. apply good_Diag; auto.
+  - intros n al a r W Sq OK H. cbn [inv] in H. apply amb_ok in H. inversion H; subst r. apply good_Ident.
+  - intros c n al a r W Sq OK H. cbn [inv ok] in *. apply amb_ok in H. inversion H; subst r. apply good_Scal; auto.
+  - (* Sum *) intros ms _ al a r W Sq OK H. eapply base_good; eauto.
+  - (* Prod *) intros ms HF al a r W Sq OK H. cbn [inv ok] in *. destruct (forallb is_sq ms) eqn:SQ; [|eapply base_good; eauto].
+    apply lift_ok in H as (rs & E & ->).
     apply prod_good; auto. eapply list_good; eauto.
     cbn [wf] in W. apply andb_prop in W as [W _]. apply andb_prop in W as [_ W]. exact W.
-  - (* Kron *) intros ms HF al a r W Sq OK H D. cbn [inv ok] in *. apply amb_ok in H. apply lift_ok in H as (rs & E & ->). destruct OK as [SQ OK].
-    cbn [direct] in D. apply kron_good; auto. eapply list_good; eauto. cbn [wf] in W. apply andb_prop in W as [W _]. exact W.
-  - (* BDiag *) intros ms HF al a r W Sq OK H D. cbn [inv ok] in *. apply amb_ok in H. apply lift_ok in H as (rs & E & ->). destruct OK as [SQ OK].
+  - (* Kron *) intros ms HF al a r W Sq OK H. cbn [inv ok] in *. apply amb_ok in H. apply lift_ok in H as (rs & E & ->). destruct OK as [SQ OK].
+    apply kron_good; auto. eapply list_good; eauto. cbn [wf] in W. apply andb_prop in W as [W _]. exact W.
+  - (* BDiag *) intros ms HF al a r W Sq OK H. cbn [inv ok] in *. apply amb_ok in H. apply lift_ok in H as (rs & E & ->). destruct OK as [SQ OK].
     assert (G : goodl (map fst ms) rs).
-    { assert (LD : forallb direct rs = true).
-      { cbn [direct] in D. rewrite direct_bdiag in D; auto. rewrite map_length.
-        clear - E. revert rs E. generalize (akids a). induction ms as [|mc ms IH]; intros ks rs E.
-        - cbn in E. inversion E; reflexivity.
-        - cbn [map] in E. rewrite zipapp_cons in E. cbn [seqres] in E. destruct (inv al (fst mc) (hd adef ks)); [|discriminate].
-          destruct (seqres (zipapp (map (fun (mc0 : op * nat) k => inv al (fst mc0) k) ms) (tl ks))) eqn:E2; [discriminate|]. inversion E; subst. cbn [length]. f_equal. eapply IH; eauto. }
-      apply (list_good al (map fst ms)) with (ks := akids a); auto.
+    { apply (list_good al (map fst ms)) with (ks := akids a); auto.
       - apply Forall_map. exact HF.
       - cbn [wf] in W. rewrite forallb_map_fst. exact W.
       - rewrite forallb_map_fst. exact SQ.
       - rewrite map_map. exact OK.
       - rewrite map_map. exact E. }
     apply bdiag_good; auto.
-  - intros e _ al a r W Sq OK H D. eapply base_good; eauto.
-  - intros e _ al a r W Sq OK H D. eapply base_good; eauto.
-  - intros A al a r W Sq OK H D. eapply base_good; eauto.
-  - (* Perm *) intros n p al a r W Sq OK H D. cbn [inv ok] in *. apply amb_ok in H. inversion H; subst r. apply good_Perm; auto.
-  - intros n al be ga alg a r W Sq OK H D. eapply base_good; eauto.
-  - intros n v beta al a r W Sq OK H D. eapply base_good; eauto.
-  - intros m n ent al a r W Sq OK H D. eapply base_good; eauto.
-  - intros ms _ al a r W Sq OK H D. eapply base_good; eauto.
-  - intros e rs cs _ al a r W Sq OK H D. eapply base_good; eauto.
-  - intros ms _ al a r W Sq OK H D. eapply base_good; eauto.
+  - intros e _ al a r W Sq OK H. eapply base_good; eauto.
+  - intros e _ al a r W Sq OK H. eapply base_good; eauto.
+  - intros A al a r W Sq OK H. eapply base_good; eauto.
+  - (* Perm *) intros n p al a r W Sq OK H. cbn [inv ok] in *. apply amb_ok in H. inversion H; subst r. apply good_Perm; auto.
+  - intros n al be ga alg a r W Sq OK H. eapply base_good; eauto.
+  - intros n v beta al a r W Sq OK H. eapply base_good; eauto.
+  - intros m n ent al a r W Sq OK H. eapply base_good; eauto.
+  - intros ms _ al a r W Sq OK H. eapply base_good; eauto.
+  - intros e rs cs _ al a r W Sq OK H. eapply base_good; eauto.
+  - intros ms _ al a r W Sq OK H. eapply base_good; eauto.
 Qed.
 End S.
